@@ -1,7 +1,10 @@
 //! Coverage-guided target for C01: the first two bytes pick syntax and options, the rest is the
 //! stylesheet text, compiled in both output styles. Oracle inside the target: the call returns
 //! (a panic aborts the fuzzer = finding, a hang trips libFuzzer's -timeout) and an error can be
-//! rendered and converted to its public kind. Inputs nested deeper than 64 are skipped (known finding: unbounded recursion).
+//! rendered and converted to its public kind. Excluded by construction (counted; written to
+//! $VERIF_FUZZ_STATS/stats.<pid>): inputs nested deeper than 64 and inputs in which the body of a
+//! mixin/function definition mentions a defined mixin/function name (possible unbounded recursion) -
+//! both end in the known finding C01/stack-overflow-deep-nesting, and loops that only burn time.
 #![no_main]
 use grass_compiler as grass;
 use libfuzzer_sys::fuzz_target;
@@ -21,7 +24,143 @@ fn depth(s: &str) -> usize {
     m
 }
 
+fn is_ident(c: u8) -> bool {
+    c.is_ascii_alphanumeric() || c == b'-' || c == b'_' || c >= 0x80 || c == b'\\'
+}
+
+fn norm(b: &[u8]) -> Vec<u8> {
+    b.iter().map(|c| if *c == b'_' { b'-' } else { *c }).collect()
+}
+
+/// (name, body range) of every `@mixin` / `@function` / `=name` definition; the body is found by
+/// brace matching (SCSS) or by indentation (indented syntax). Deliberately over-approximate.
+fn definitions(t: &[u8], sass: bool) -> Vec<(Vec<u8>, std::ops::Range<usize>)> {
+    let mut out = vec![];
+    let mut i = 0;
+    while i < t.len() {
+        let rest = &t[i..];
+        let kw = if rest.starts_with(b"@mixin") {
+            6
+        } else if rest.starts_with(b"@function") {
+            9
+        } else if sass && rest[0] == b'=' && (i == 0 || t[i - 1] == b'\n' || t[i - 1] == b' ' || t[i - 1] == b'\t') {
+            1
+        } else {
+            i += 1;
+            continue;
+        };
+        let mut j = i + kw;
+        while j < t.len() && (t[j] == b' ' || t[j] == b'\t') {
+            j += 1;
+        }
+        let s0 = j;
+        while j < t.len() && is_ident(t[j]) {
+            j += 1;
+        }
+        let name = norm(&t[s0..j]);
+        let body = if sass {
+            // indentation of the definition line, then every following line indented deeper (or blank)
+            let ls = t[..i].iter().rposition(|c| *c == b'\n').map_or(0, |p| p + 1);
+            let ind = t[ls..].iter().take_while(|c| **c == b' ' || **c == b'\t').count();
+            let mut k = t[j..].iter().position(|c| *c == b'\n').map_or(t.len(), |p| j + p + 1);
+            let start = k;
+            while k < t.len() {
+                let le = t[k..].iter().position(|c| *c == b'\n').map_or(t.len(), |p| k + p + 1);
+                let line = &t[k..le];
+                let li = line.iter().take_while(|c| **c == b' ' || **c == b'\t').count();
+                let blank = line.iter().all(|c| c.is_ascii_whitespace());
+                if !blank && li <= ind {
+                    break;
+                }
+                k = le;
+            }
+            start..k
+        } else {
+            match t[j..].iter().position(|c| *c == b'{') {
+                None => j..t.len(),
+                Some(p) => {
+                    let open = j + p;
+                    let mut d = 0usize;
+                    let mut k = open;
+                    let mut end = t.len();
+                    while k < t.len() {
+                        match t[k] {
+                            b'{' => d += 1,
+                            b'}' => {
+                                d = d.saturating_sub(1);
+                                if d == 0 {
+                                    end = k;
+                                    break;
+                                }
+                            }
+                            _ => {}
+                        }
+                        k += 1;
+                    }
+                    open..end
+                }
+            }
+        };
+        if !name.is_empty() {
+            out.push((name, body));
+        }
+        i = j.max(i + 1);
+    }
+    out
+}
+
+fn may_recurse(text: &str, sass: bool) -> bool {
+    let t = text.as_bytes();
+    let defs = definitions(t, sass);
+    if defs.is_empty() {
+        return false;
+    }
+    for (_, body) in &defs {
+        let b = norm(&t[body.clone()]);
+        for (name, _) in &defs {
+            let mut from = 0;
+            while from + name.len() <= b.len() {
+                match b[from..].windows(name.len()).position(|w| w == &name[..]) {
+                    None => break,
+                    Some(p) => {
+                        let s = from + p;
+                        let e = s + name.len();
+                        let left = s == 0 || !is_ident(b[s - 1]);
+                        let right = e == b.len() || !is_ident(b[e]);
+                        if left && right {
+                            return true;
+                        }
+                        from = s + 1;
+                    }
+                }
+            }
+        }
+    }
+    false
+}
+
+static EXECS: std::sync::atomic::AtomicU64 = std::sync::atomic::AtomicU64::new(0);
+static X_DEPTH: std::sync::atomic::AtomicU64 = std::sync::atomic::AtomicU64::new(0);
+static X_LOOP: std::sync::atomic::AtomicU64 = std::sync::atomic::AtomicU64::new(0);
+static X_REC: std::sync::atomic::AtomicU64 = std::sync::atomic::AtomicU64::new(0);
+static COMPILED: std::sync::atomic::AtomicU64 = std::sync::atomic::AtomicU64::new(0);
+
+fn stats() {
+    use std::sync::atomic::Ordering::Relaxed;
+    let n = EXECS.fetch_add(1, Relaxed) + 1;
+    if n % 512 == 0 {
+        if let Ok(dir) = std::env::var("VERIF_FUZZ_STATS") {
+            let _ = std::fs::write(
+                format!("{}/stats.{}", dir, std::process::id()),
+                format!("{} {} {} {} {}\n", n, X_DEPTH.load(Relaxed), X_LOOP.load(Relaxed), X_REC.load(Relaxed), COMPILED.load(Relaxed)),
+            );
+        }
+    }
+}
+
 fuzz_target!(|data: &[u8]| {
+    use std::sync::atomic::Ordering::Relaxed;
+    stats();
     if data.len() < 2 {
         return;
     }
@@ -31,12 +170,19 @@ fuzz_target!(|data: &[u8]| {
         Err(_) => return,
     };
     if depth(text) > 64 {
+        X_DEPTH.fetch_add(1, Relaxed);
         return;
     }
     // loops that only burn time are not this target's subject
     if text.contains("@while") || text.contains("@for") || text.contains("@each") {
+        X_LOOP.fetch_add(1, Relaxed);
         return;
     }
+    if cfg[0] % 3 != 2 && may_recurse(text, cfg[0] % 3 == 1) {
+        X_REC.fetch_add(1, Relaxed);
+        return;
+    }
+    COMPILED.fetch_add(1, Relaxed);
     let syntax = match cfg[0] % 3 {
         0 => grass::InputSyntax::Scss,
         1 => grass::InputSyntax::Sass,
